@@ -8,7 +8,6 @@
 import ktx_glue_sponge as G
 from ktx_glue_sponge import GK, World, Struct, Callee
 
-TRANSLATE = G.translate
 LEAN_FILE = "GlueSponge"
 
 # ------------------------------------------------------------------------------------------------ SHA-3 sponge
@@ -54,6 +53,9 @@ SHA3 = [
               "can_squeeze: bool, offset: usize, }"),
     GK(W3, kind="struct", file=F3, fn="$context", scope=r"pub struct \$context\(", lean_name="Context_struct_src",
        expect="pub struct $context(Engine<$digestlength, 2>);"),
+    # the primitives named by the spec (`zero`, `keccak_f`, `cmp::min`, `vec::from_elem`) are the ones these lines import
+    GK(W3, kind="struct", file=F3, fn="use", scope=r"use alloc::vec;\s*use core::cmp;\s*use crate::cryptoutil::\{", lean_name="Imports_src",
+       expect="use alloc::vec; use core::cmp; use crate::cryptoutil::{read_u64v_le, write_u64v_le, zero};"),
     e3("rate", doc="`B - (DIGESTLEN * 2)`"),
     e3("new"),
     GK(W3, file=F3, fn="set_domain_sep", scope=ENG3_SCOPE, outer="finalize", lean_name="set_domain_sep_src"),
@@ -65,9 +67,115 @@ SHA3 = [
     e3("reset"),
     e3("output", fuel=["in_len - in_pos + 1"], doc="squeeze; `out` is returned as the second component"),
     c3("new"), c3("update_mut"), c3("update"), c3("finalize_reset"), c3("finalize"), c3("reset"),
+    # `impl $C { pub fn new() -> $context { $context::new() } }` (the algorithm marker types `Sha3_224` …)
+    GK(W3, file=F3, fn="new", scope=r"impl\s+\$C\s*\{", generics=["DIGESTLEN"], subst=CTX3_SUBST, lean_name="Algorithm.new_src"),
 ]
 
-KERNELS = SHA3
+
+# ------------------------------------------------------------------------------------------------ BLAKE2b / BLAKE2s
+FM = "src/hashing/blake2/mod.rs"
+
+
+def blake2_world(X, w):
+    """X = "b" | "s" (the model's `Params`, `common::b` / `common::s`), w = word bits"""
+    Wd = f"u{w}"
+    ENG = ("struct", "Engine")
+    return World(
+        structs={
+            # `EngineB { h: [u64; 8], t: [u64; 2] }`: the model keeps the two counter words as naturals `t0`, `t1`
+            "Engine": Struct(f"(Engine UInt{w})", {"h": (("vec", Wd, 8), ["h"]), "t": (("natarr", w), [("t0", "t1")])},
+                             lit=lambda f: "{ h := %s, t0 := %s, t1 := %s }" % (f["h"], f["t"][0], f["t"][1])),
+            "Context": Struct(f"(Ctx UInt{w})", {"eng": (ENG, ["eng"]), "buf": ("bytes", ["buf"]), "buflen": ("usize", ["buflen"])},
+                              lit=lambda f: "{ eng := %s, buf := %s, buflen := %s }" % (f["eng"], f["buf"], f["buflen"])),
+            # the model's `ContextDyn` = the shared fields (`ctx : Ctx W`) + `outlen`
+            "ContextDyn": Struct(f"(ContextDyn UInt{w})",
+                                 {"eng": (ENG, ["ctx", "eng"]), "buf": ("bytes", ["ctx", "buf"]),
+                                  "buflen": ("usize", ["ctx", "buflen"]), "outlen": ("usize", ["outlen"])},
+                                 lit=lambda f: "{ ctx := { eng := %s, buf := %s, buflen := %s }, outlen := %s }"
+                                               % (f["eng"], f["buf"], f["buflen"], f["outlen"])),
+        },
+        consts={f"{X}::IV": (f"{X}.iv", ("vec", Wd, 8)), f"{X}::MAX_OUTLEN": (f"{X}.maxOut", "usize"),
+                f"{X}::MAX_KEYLEN": (f"{X}.maxKey", "usize"), f"{X}::BLOCK_BYTES": (f"{X}.bb", "usize"),
+                "Engine::BLOCK_BYTES": ("Engine.BLOCK_BYTES_src", "usize"),
+                "Engine::MAX_OUTLEN": ("Engine.MAX_OUTLEN_src", "usize"),
+                "Engine::MAX_KEYLEN": ("Engine.MAX_KEYLEN_src", "usize"),
+                "Engine::BLOCK_BYTES_NATIVE": ("Engine.BLOCK_BYTES_NATIVE_src", ("nat", w))},
+        callees={
+            # `Engine::compress` -> reference::compress_b/s: tied by Props/C01/KernelTieBlake2 (dispatch + compression core)
+            ("Engine", "compress"): Callee(f"Engine.compress {X} {{self}} {{0}} {{1}}",
+                                           [("val", "bytes"), ("val", ("enum", "LastBlock"))], selfm="mut"),
+            "zero": Callee("zeros {0}.length", [("mut", "bytes")]),
+            f"write_u{w}v_le": Callee(f"write_u{w}v_le {{0}} {{1}}", [("mut", "bytes"), ("val", ("wlist", Wd))],
+                                      fallible=True),
+        },
+        aliases={"EngineB": "Engine", "EngineS": "Engine"})
+
+
+def blake2_kernels(X, w):
+    W = blake2_world(X, w)
+    U = X.upper()
+    FC = f"src/hashing/blake2{X}.rs"
+    ES = rf"impl Engine{U}\s*\{{"
+    nat = ("nat", w)
+    ks = [
+        GK(W, kind="struct", file=FM, fn=f"Engine{U}", scope=rf"pub struct Engine{U}\b", lean_name="Engine_struct_src",
+           expect=f"pub struct Engine{U} {{ pub h: [u{w}; 8], pub t: [u{w}; 2], }}"),
+        GK(W, kind="struct", file=FC, fn="Context", scope=r"pub struct Context<", lean_name="Context_struct_src",
+           expect="pub struct Context<const BITS: usize> { eng: Engine, buf: [u8; Engine::BLOCK_BYTES], buflen: usize, }"),
+        GK(W, kind="struct", file=FC, fn="ContextDyn", scope=r"pub struct ContextDyn\b", lean_name="ContextDyn_struct_src",
+           expect="pub struct ContextDyn { eng: Engine, buf: [u8; Engine::BLOCK_BYTES], buflen: usize, outlen: usize, }"),
+        GK(W, kind="struct", file=FC, fn="use", scope=r"use super::blake2::\{", lean_name="Engine_alias_src",
+           expect=f"use super::blake2::{{Engine{U} as Engine, LastBlock}};"),
+        GK(W, kind="struct", file=FC, fn="use", scope=r"use crate::cryptoutil::\{", lean_name="Imports_src",
+           expect=f"use crate::cryptoutil::{{write_u{w}v_le, zero}};"),
+    ]
+    for c in ("BLOCK_BYTES", "MAX_OUTLEN", "MAX_KEYLEN"):
+        ks.append(GK(W, kind="const", file=FM, fn=c, scope=ES, lean_name=f"Engine.{c}_src"))
+    ks.append(GK(W, kind="const", file=FM, fn="BLOCK_BYTES_NATIVE", scope=ES, lean_name="Engine.BLOCK_BYTES_NATIVE_src", ret_type=nat,
+                 doc=f"a `u{w}` kept as a natural (`as u{w}` = `% 2 ^ {w}`)"))
+    for fn in ("new", "reset"):
+        ks.append(GK(W, file=FM, fn=fn, scope=ES, struct="Engine", lean_name=f"Engine.{fn}_src"))
+    ks.append(GK(W, file=FM, fn="increment_counter", scope=ES, struct="Engine", lean_name="Engine.increment_counter_src",
+                 param_types={"inc": nat}, doc=f"`inc : u{w}` and the counter words `t[0], t[1]` are naturals below 2^{w} in the model"))
+    CS = r"impl<const BITS: usize> Context<BITS>\s*\{"
+    for fn in ("new_keyed", "new", "update_mut", "update", "internal_final", "reset", "reset_with_key", "finalize_at", "finalize_reset_at",
+               "finalize_reset_with_key_at"):
+        ks.append(GK(W, file=FC, fn=fn, scope=CS, struct="Context", generics=["BITS"], lean_name=f"Context.{fn}_src",
+                     fuel=["input.length + 1"] if fn == "update_mut" else []))
+    for fn in ("finalize", "finalize_reset", "finalize_reset_with_key"):
+        ks.append(GK(W, file=FC, fn=fn, scope=r"macro_rules!\s+context_finalize", struct="Context", generics=["BITS"],
+                     subst={"$size": "BITS"}, lean_name=f"Context.{fn}_src",
+                     doc="`context_finalize!($size)` with `$size` = BITS (the invocations 224/256/384/512 are separate impls of the same text)"))
+    # `impl<const BITS: usize> Blake2b<BITS> { pub fn new() -> Context<BITS> { Context::new() } … }`
+    AS = rf"impl<const BITS: usize> Blake2{X}<BITS>\s*\{{"
+    for fn in ("new", "new_keyed"):
+        ks.append(GK(W, file=FC, fn=fn, scope=AS, generics=["BITS"], lean_name=f"Algorithm.{fn}_src"))
+    DS = r"impl ContextDyn\s*\{"
+    for fn in ("new_keyed", "new", "update_mut", "update", "internal_final", "reset", "reset_with_key", "finalize_at", "finalize_reset_at",
+               "finalize_reset_with_key_at", "output_bits"):
+        ks.append(GK(W, file=FC, fn=fn, scope=DS, struct="ContextDyn", lean_name=f"ContextDyn.{fn}_src",
+                     fuel=["input.length + 1"] if fn == "update_mut" else []))
+    return ks
+
+
+class Section:
+    """pseudo kernel: literal Lean text between kernels (namespace switches)"""
+
+    def __init__(self, text):
+        self.text, self.lean_name, self.params = text, "_section", ""
+
+
+def TRANSLATE(k):
+    return k.text if isinstance(k, Section) else G.translate(k)
+
+
+def ns(name, opens):
+    return Section(f"namespace {name}\n{opens}\n")
+
+
+KERNELS = ([ns("Sha3", "open Cx.Impl.Sha3\nopen Cx.Extracted.Sha3 (B)")] + SHA3 + [Section("end Sha3\n")]
+           + [ns("Blake2b", "open Cx.Impl.Blake2\nopen Cx.Impl.Sha3 (usizechk idx upd)")] + blake2_kernels("b", 64) + [Section("end Blake2b\n")]
+           + [ns("Blake2s", "open Cx.Impl.Blake2\nopen Cx.Impl.Sha3 (usizechk idx upd)")] + blake2_kernels("s", 32) + [Section("end Blake2s\n")])
 
 HEADER = """import CxVerif.Impl.Sha3
 import CxVerif.Impl.Blake2
@@ -82,10 +190,15 @@ def usub (a b : Nat) : Option Nat := if b ≤ a then some (a - b) else none
 /-- `a / b`, `a % b` on `usize` with a divisor that is not a non-zero literal -/
 def udiv (a b : Nat) : Option Nat := if b = 0 then none else some (a / b)
 def urem (a b : Nat) : Option Nat := if b = 0 then none else some (a % b)
+/-- checked `+`, `*` on a `w`-bit word kept as a natural -/
+def wordchk (w v : Nat) : Option Nat := if v < 2 ^ w then some v else none
 /-- `a << n` on `u8` (overflow check of the shift amount) -/
 def shlU8 (a : UInt8) (n : Nat) : Option UInt8 := if n < 8 then some (a <<< UInt8.ofNat n) else none
 /-- `&a[lo..hi]` -/
 def slice (a : Bytes) (lo hi : Nat) : Option Bytes :=
+  if lo ≤ hi ∧ hi ≤ a.length then some ((a.drop lo).take (hi - lo)) else none
+/-- `&a[lo..hi]` of a word array -/
+def lslice {α : Type} (a : List α) (lo hi : Nat) : Option (List α) :=
   if lo ≤ hi ∧ hi ≤ a.length then some ((a.drop lo).take (hi - lo)) else none
 /-- `&a[lo..]` -/
 def sliceFrom (a : Bytes) (lo : Nat) : Option Bytes := if lo ≤ a.length then some (a.drop lo) else none
@@ -113,9 +226,5 @@ def write_u64v_le (dst : Bytes) (input : List UInt64) : Option Bytes :=
   if dst.length = 8 * input.length then some (input.flatMap u64le) else none
 def write_u32v_le (dst : Bytes) (input : List UInt32) : Option Bytes :=
   if dst.length = 4 * input.length then some (input.flatMap u32le) else none
-
-namespace Sha3
-open Cx.Impl.Sha3
-open Cx.Extracted.Sha3 (B)
 """
-FOOTER = "end Sha3\nend Cx.Extracted.GlueSponge\n"
+FOOTER = "end Cx.Extracted.GlueSponge\n"
